@@ -202,7 +202,31 @@ fn main() {}
 #[cfg(not(kani))]
 fn main() {
     use basic::verif::Src;
-    let args: Vec<String> = std::env::args().collect();
+    let mut args: Vec<String> = std::env::args().collect();
+    if args.len() > 3 && args[1] == "--enum" {
+        // counterexample search for a harness whose inputs range over small finite domains
+        // (`enum=` in its map line): try every combination natively
+        let dims: Vec<usize> = args[2].split(',').map(|d| d.parse().unwrap()).collect();
+        let name = args[3].clone();
+        let total: usize = dims.iter().product();
+        for n in 0..total {
+            let mut k = n;
+            let mut combo: Vec<String> = vec![];
+            for d in dims.iter() {
+                combo.push(format!("{}", k %% d));
+                k /= d;
+            }
+            let out = std::process::Command::new(&args[0]).arg(&name).args(&combo).output().unwrap();
+            let text = String::from_utf8_lossy(&out.stdout).to_string();
+            if text.contains("CONFIRMED") {
+                println!("FOUND {}", combo.join(" "));
+                print!("{}", text);
+                return;
+            }
+        }
+        println!("REPLAY-ENUM-NONE");
+        return;
+    }
     let name = args[1].clone();
     let vals: Vec<Vec<u8>> = args[2..]
         .iter()
@@ -329,14 +353,19 @@ def run_single(name, playback=True, timeout=1800):
     counterexample.  Pass 2 is best effort: without it the violation is reported with
     no-failing-input-found."""
     cmd = ['cargo', 'kani'] + KANI_FLAGS + ['--harness', name]
-    log = _kani_once(cmd, _env(), timeout)
+    # terse output: the regular format makes CBMC produce full traces (measured: 800 s instead of 60 s)
+    log = _kani_once(cmd + ['--output-format', 'terse'], _env(), timeout)
     failed_checks = re.findall(r'Failed Checks: (.*)', log)
     for m in re.finditer(r'Check \d+: (\S+)\s*\n\s*- Status: FAILURE\s*\n\s*- Description: "([^"]*)"(?:\s*\n\s*- Location: ([^\n]*))?', log):
         failed_checks.append('%s: %s @ %s' % (m.group(1), m.group(2), (m.group(3) or '').strip()))
     status = 'fail' if 'VERIFICATION:- FAILED' in log else ('ok' if 'VERIFICATION:- SUCCESSFUL' in log else 'undecided')
     # a time-out, a solver abort (memory cap) or a missing list of failed checks is not a refutation
-    if status == 'fail' and (re.search(r'timed out|CBMC failed|TIMEOUT|out of memory|std::bad_alloc|Status: ERROR', log) or not failed_checks):
+    if status == 'fail' and (re.search(r'timed out|CBMC failed|TIMEOUT|out of memory|std::bad_alloc|Status: ERROR', log)
+                             or any(re.search(r'nsupported|not currently supported', c) for c in failed_checks)):
         status = 'undecided'
+    if status == 'fail' and not failed_checks:
+        # Kani's terse output does not itemise a failed `kani::ensures` clause of a function contract
+        failed_checks = ['postcondition (kani::ensures) of the function contract under proof']
     vals = None
     if status == 'fail' and playback:
         env = _env()
@@ -348,6 +377,20 @@ def run_single(name, playback=True, timeout=1800):
             for vm in re.finditer(r'vec!\[([0-9, ]*)\]', m.group(1)):
                 vals.append([int(x) for x in vm.group(1).replace(' ', '').split(',') if x != ''])
     return dict(status=status, failed_checks=failed_checks, concrete_vals=vals, log=log)
+
+
+def native_replay_enum(name, dims, timeout=900):
+    """For a bounded harness over small finite input domains: find the failing combination natively."""
+    b = subprocess.run(['cargo', 'build', '--offline', '--bin', 'replay'], cwd=CRATE, env=_env(),
+                       stdout=subprocess.PIPE, stderr=subprocess.STDOUT, text=True, timeout=timeout)
+    if b.returncode != 0:
+        return dict(outcome='REPLAY-BUILD-FAILED', log=b.stdout[-3000:], vals=None)
+    r = subprocess.run([os.path.join(CRATE, 'target', 'debug', 'replay'), '--enum', dims, name], cwd=CRATE,
+                       stdout=subprocess.PIPE, stderr=subprocess.STDOUT, text=True, timeout=timeout)
+    m = re.search(r'FOUND ([0-9 ]+)', r.stdout)
+    if m:
+        return dict(outcome='CONFIRMED', log=r.stdout[-2000:], vals=[[int(x)] for x in m.group(1).split()])
+    return dict(outcome='NOT-REPRODUCED', log=r.stdout[-2000:], vals=None)
 
 
 def native_replay(name, vals, timeout=900):
@@ -370,12 +413,32 @@ def native_replay(name, vals, timeout=900):
     return dict(outcome=oc, log=out[-3000:])
 
 
+class kani_lock:
+    """The scratch crate build/kani is shared: one user at a time."""
+    def __enter__(self):
+        import fcntl
+        os.makedirs(CRATE, exist_ok=True)
+        self.f = open(os.path.join(CRATE, '.lock'), 'w')
+        fcntl.flock(self.f, fcntl.LOCK_EX)
+        return self
+
+    def __exit__(self, *a):
+        import fcntl
+        fcntl.flock(self.f, fcntl.LOCK_UN)
+        self.f.close()
+
+
 def contract_files():
     cfs = sorted(glob.glob(os.path.join(VERIF, 'contracts', 'kani', '*.rs')))
     return [c for c in cfs if not c.endswith('verif_support.rs')]
 
 
 def run_for_property(pid, repo, tier, seed, jobs=None):
+    with kani_lock():
+        return _run_for_property(pid, repo, tier, seed, jobs)
+
+
+def _run_for_property(pid, repo, tier, seed, jobs=None):
     """Run the Kani harnesses tagged with the property.  Returns None when no
     harness is tagged, else dict(harnesses[(name,status,kind,meta)], failures,
     undecided[], functions[], trusted[], cmds[], solver_s{}, samples[])."""
@@ -419,7 +482,7 @@ def run_for_property(pid, repo, tier, seed, jobs=None):
         st = r['results'].get(n, 'undecided')
         kind = hm.get('kind', 'complete')
         if st == 'fail':
-            one = run_single(n)
+            one = run_single(n, playback=not hm.get('enum'))
             if one['status'] != 'fail':
                 st = 'undecided'
                 out['undecided'].append('kani harness %s: failed in the batch but not alone (%s)' % (n, one['status']))
@@ -430,6 +493,11 @@ def run_for_property(pid, repo, tier, seed, jobs=None):
                     rp = native_replay(n, one['concrete_vals'])
                     info['replay'] = rp['outcome']
                     info['replay_log'] = rp['log']
+                elif hm.get('enum'):
+                    rp = native_replay_enum(n, hm['enum'])
+                    info['replay'] = rp['outcome']
+                    info['replay_log'] = rp['log']
+                    info['concrete_vals'] = rp['vals']
                 out['failures'][n] = info
         elif st == 'undecided' and not r['build_error']:
             out['undecided'].append('kani harness %s: no result (time-out or memory cap %d KB)' % (n, MEM_CAP_KB))
